@@ -128,7 +128,8 @@ HistVerdict(objs, steps) ==
 \* judged against the state as it is at that moment: a call returns SessOut, and afterwards the caller's objects are SessNext
 \* (what they were, plus the result of update / from_table as a new object that refers to nothing the caller had) -------------
 SessCalls == {"get", "setitem", "update", "items", "to_table", "from_table"}
-SeqOfItem(it) == it[1] \o <<it[2]>>
+\* an item spelled as a list [k1, .., kn, leaf], logged with the keys wrapped as <<"k", key>>
+SeqOfItem(it) == [i \in 1..Len(it[1]) |-> <<"k", it[1][i]>>] \o <<it[2]>>
 SessOutVerdict(st0, step) ==
     LET call == step.call  want == SessOut(st0, call) IN
     CASE call.kind = "get"     -> IF step.out = want THEN "" ELSE "get_leaf"
